@@ -270,7 +270,14 @@ def run(tier, seed, model_ok=True):
         if sr.verdict != "ok":
             res.oracle_failures.append({"what": f"hash harness failed: {sr.verdict}", "signature": "hash-run-failed", "case": {"ranks": R, "stderr": sr.stderr[-300:]}})
             continue
-        lines = [sr.outs.get(r, [""])[0] for r in range(R)]
+        zl = [l for r in range(R) for l in sr.outs.get(r, []) if l.startswith("zeros ")]
+        for l in zl:
+            w = l.split()[1:]
+            if len(set(w)) != 1:
+                res.oracle_failures.append({"what": f"+0.0 and -0.0 compare equal but have different owners ({w}) on {R} ranks", "signature": "equal-keys-different-owner",
+                                            "case": {"ranks": R, "mode": "hash"}})
+                break
+        lines = [next((l for l in sr.outs.get(r, []) if l.startswith("hash")), "") for r in range(R)]
         if len(set(lines)) != 1:
             res.oracle_failures.append({"what": "ranks disagree on hash owners", "signature": "hash-owner-disagree", "case": {"ranks": R}})
             continue
